@@ -637,7 +637,7 @@ impl SchemaCfg {
       features: r.chance(1, 5),
       comments: r.chance(1, 3),
       alias_chains: r.chance(1, 3),
-      hazards: r.chance(1, 40),
+      hazards: r.chance(1, 80),
       extra_rules: r.chance(1, 3),
     }
   }
